@@ -1,12 +1,159 @@
 (* C02 -- search returns exactly the streams the query denotes, ordered and paged.
-   Statements only; proofs are in theories/SearchProofs.v. *)
-From Coq Require Import List NArith ZArith Bool.
-Import ListNotations.
-Require Import Pk.Search.
 
-(* sanity: one stream, one part without lookups, default order *)
-Example c02_smoke :
-  let s := mkStream 7 10 20 1 2 1000 80 [10;0;0;1]%N [10;0;0;2]%N in
-  let f := mkFile [s] [0] [0] [0] in
-  search_algo v_fixed [(f, [mkQpart true [] (fun _ => true)])] [] 100 0 (fun _ => true) = ([(0, 0, s)], false).
-Proof. vm_compute. reflexivity. Qed.
+   Statements only; proofs are in theories/SearchProofs.v, the model in theories/Search.v.
+
+   Reading guide.
+   [search_algo v fs keys limit skip idok] is the model of index.SearchStreams without grouping and
+   sub-queries: [fs] = index files oldest first, each with the query parts compiled for it
+   (possible / lookups / filters, as buildSearchObjects delivers them), [v_fixed] = the code with
+   fixes/C02-fallthrough-duplicates and C02-early-exit-secondary-keys applied, [v_orig] = the pinned
+   commit.  [sat] is the meaning of the (cleaned, tag-inlined) query on one stream: a GIVEN predicate
+   (C03/C04 own it).  [file_ok sat] says what the compiled parts and the sorted sections of a file must
+   satisfy: OR over the parts of (possible && filters) = sat; every lookup lists every stream its part
+   accepts; the id/ftime/ltime sections are permutations of the file sorted by their key.  The
+   correspondence check validates these hypotheses on every generated case against the real
+   buildSearchObjects and the real index files.
+   The specification: [visible] = newest stored version of every stream id, [spec_matching] = visible
+   streams satisfying sat and the id restriction, [spec_page] = stable sort, skip, cut,
+   [spec_more] = limit <> 0 and more than skip+limit streams match. *)
+From Coq Require Import List NArith ZArith Bool Permutation Sorted.
+Import ListNotations.
+Require Import Pk.Search Pk.SearchProofs Pk.SearchWitness.
+
+(* ---------------------------------------------------------------- comparators *)
+(* every sort key list (any keys, any directions, any length) orders result entries by a strict weak
+   order: irreflexive, transitive, incomparability transitive *)
+Theorem c02_comparator_is_strict_weak_order : forall ks : list sorting, swo (entry_less ks).
+Proof. exact swo_entry_less. Qed.
+
+(* sort.Search on a monotone predicate returns the boundary *)
+Theorem c02_binary_search_boundary : forall (f : nat -> bool) (n : nat),
+  (forall h k, h <= k -> k < n -> f h = true -> f k = true) ->
+  let r := bsearch f n in
+  r <= n /\ (forall k, k < r -> f k = false) /\ (forall k, r <= k -> k < n -> f k = true).
+Proof. exact bsearch_spec. Qed.
+
+(* sorted insertion by binary search keeps the result list sorted and only adds the new entry *)
+Theorem c02_sorted_insertion : forall less, swo less -> forall e l,
+  sorted less l -> sorted less (insert_sorted less e l) /\ Permutation (insert_sorted less e l) (e :: l).
+Proof. exact insert_sorted_spec. Qed.
+
+(* ---------------------------------------------------------------- the search, patched code *)
+(* (iii) the returned page is sorted w.r.t. the full comparator *)
+Theorem c02_result_sorted : forall fs keys limit skip idok sat,
+  Forall (file_ok sat) fs ->
+  sorted (entry_less (effective_sorting keys)) (fst (search_algo v_fixed fs keys limit skip idok)).
+Proof. exact algo_sorted. Qed.
+
+(* (ii) every returned entry is a visible (newest version) stream that satisfies the query and the
+   id restriction *)
+Theorem c02_result_subset_of_matching_visible : forall fs keys limit skip idok sat,
+  Forall (file_ok sat) fs ->
+  forall e, In e (fst (search_algo v_fixed fs keys limit skip idok)) ->
+            In e (spec_matching (map fst fs) idok sat).
+Proof. exact algo_sound. Qed.
+
+(* (i) no stream id is listed twice (no index file stores an id twice) *)
+Theorem c02_result_no_duplicates : forall fs keys limit skip idok sat,
+  Forall (file_ok sat) fs ->
+  Forall (fun f => NoDup (map s_id (f_streams f))) (map fst fs) ->
+  NoDup (map e_id (fst (search_algo v_fixed fs keys limit skip idok))).
+Proof. exact algo_nodup. Qed.
+
+(* (iv) the page has min(limit, |matching| - skip) entries (all of them without a limit) *)
+Theorem c02_result_length : forall fs keys limit skip idok sat,
+  Forall (file_ok sat) fs -> (limit = 0 -> skip = 0) ->
+  length (fst (search_algo v_fixed fs keys limit skip idok)) =
+  if Nat.eqb limit 0 then length (spec_matching (map fst fs) idok sat) - skip
+  else Nat.min limit (length (spec_matching (map fst fs) idok sat) - skip).
+Proof. exact algo_length. Qed.
+
+(* (vi) the more flag is set exactly when matching streams exist beyond the page *)
+Theorem c02_more_flag : forall fs keys limit skip idok sat,
+  Forall (file_ok sat) fs ->
+  snd (search_algo v_fixed fs keys limit skip idok) = spec_more (map fst fs) limit skip idok sat.
+Proof. exact algo_more. Qed.
+
+(* (v) the matching visible streams split into: [skip] entries in front of the page, none of them after
+   a page entry; the page; and the rest, none of them strictly before a page entry (no rest without a limit) *)
+Theorem c02_nothing_better_omitted : forall fs keys limit skip idok sat,
+  Forall (file_ok sat) fs -> (limit = 0 -> skip = 0) ->
+  exists before after,
+    Permutation (spec_matching (map fst fs) idok sat)
+                (before ++ fst (search_algo v_fixed fs keys limit skip idok) ++ after) /\
+    (fst (search_algo v_fixed fs keys limit skip idok) <> [] -> length before = skip) /\
+    (forall x y, In x before -> In y (fst (search_algo v_fixed fs keys limit skip idok)) ->
+                 entry_less (effective_sorting keys) y x = false) /\
+    (forall x y, In x after -> In y (fst (search_algo v_fixed fs keys limit skip idok)) ->
+                 entry_less (effective_sorting keys) x y = false) /\
+    (limit = 0 -> after = []).
+Proof. exact algo_complete. Qed.
+
+(* hence: the page is the specified page, position by position, up to the order inside tie classes *)
+Theorem c02_page_equals_spec_up_to_ties : forall fs keys limit skip idok sat,
+  Forall (file_ok sat) fs -> (limit = 0 -> skip = 0) ->
+  Forall2 (equiv (entry_less (effective_sorting keys)))
+          (fst (search_algo v_fixed fs keys limit skip idok))
+          (spec_page (map fst fs) keys limit skip idok sat).
+Proof. exact algo_page_equiv. Qed.
+
+(* ---------------------------------------------------------------- tag definition inlining *)
+(* InlineTagFilters (patched: no slice aliasing): whenever the inlining succeeds within the fuel
+   (nesting depth of tag definitions), evaluating the inlined conditions against the match/uncertain
+   bitmaps gives the intended meaning: decided streams are judged by their bit, undecided ones by the
+   tag's definition.  [invert] is ConditionsSet.invert (C03), the uncertain bitmap is consistent with
+   its IsZero. *)
+Theorem c02_inlining_preserves_meaning :
+  forall (atom tagname : Type) (tags : tagname -> option (tagdetails atom tagname))
+         (invert : dnf atom tagname -> dnf atom tagname) (eval_atom : atom -> bool) (sid : N),
+    (forall d, eval_dnf tags eval_atom sid (invert d) = negb (eval_dnf tags eval_atom sid d)) ->
+    (forall t td, tags t = Some td -> td_uncertain td sid = true -> td_any_uncertain td = true) ->
+    forall fuel d d',
+      inline_dnf tags invert fuel d = Some d' ->
+      eval_dnf tags eval_atom sid d' = sem_dnf tags eval_atom sid fuel d.
+Proof. exact inline_preserves. Qed.
+
+(* with a correct decided bit, `tag:t` means the definition of t whether the stream is decided or not *)
+Theorem c02_tag_means_definition_when_decided_bits_correct :
+  forall (atom tagname : Type) (tags : tagname -> option (tagdetails atom tagname))
+         (eval_atom : atom -> bool) (sid : N) (fuel : nat) (t : tagname) (td : tagdetails atom tagname),
+    tags t = Some td ->
+    (td_uncertain td sid = false -> td_matches td sid = sem_dnf tags eval_atom sid fuel (td_conditions td)) ->
+    sem_cond_with tags eval_atom sid (sem_dnf tags eval_atom sid fuel) (CTag t tag_plain) =
+    sem_dnf tags eval_atom sid fuel (td_conditions td).
+Proof. exact tag_means_definition. Qed.
+
+(* ---------------------------------------------------------------- the pinned commit: refuted *)
+(* witnesses are the corpus cases corpus/C02/fallthrough-duplicates.json and
+   early-exit-secondary-keys.json, replayed on the Go code by the check *)
+Theorem c02_result_no_duplicates_refuted : exists fs keys limit skip idok sat,
+  Forall (file_ok sat) fs /\
+  Forall (fun f => NoDup (map s_id (f_streams f))) (map fst fs) /\
+  ~ NoDup (map e_id (fst (search_algo v_orig fs keys limit skip idok))).
+Proof. exact orig_duplicates. Qed.
+
+Theorem c02_page_equals_spec_up_to_ties_refuted : exists fs keys limit skip idok sat,
+  Forall (file_ok sat) fs /\ (limit = 0 -> skip = 0) /\
+  ~ Forall2 (equiv (entry_less (effective_sorting keys)))
+            (fst (search_algo v_orig fs keys limit skip idok))
+            (spec_page (map fst fs) keys limit skip idok sat).
+Proof. exact orig_early_exit. Qed.
+
+(* limit = 0 with skip <> 0 is outside the theorems (the manager computes skip = page * limit): the
+   code then treats skip as the limit and returns nothing *)
+Theorem c02_result_length_without_limit_but_skip_refuted : exists fs keys skip idok sat,
+  Forall (file_ok sat) fs /\
+  length (fst (search_algo v_fixed fs keys 0 skip idok)) <> length (spec_matching (map fst fs) idok sat) - skip.
+Proof. exact nolimit_skip_refuted. Qed.
+
+(* ---------------------------------------------------------------- the hypotheses are satisfiable *)
+Example c02_hypotheses_satisfiable : exists fs sat,
+  Forall (file_ok sat) fs /\ length fs = 2 /\
+  exists keys limit skip,
+    fst (search_algo v_fixed fs keys limit skip (fun _ => true)) <> [] /\
+    snd (search_algo v_fixed fs keys limit skip (fun _ => true)) = true.
+Proof. exact hypotheses_satisfiable. Qed.
+
+Example c02_inlining_non_vacuous : exists (tags : nat -> option (tagdetails nat nat)) d d',
+  inline_dnf tags (fun x => x) 1 d = Some d' /\ length d' = 2.
+Proof. exact inlining_non_vacuous. Qed.
